@@ -18,6 +18,7 @@ type Config struct {
 	ObligMs     int
 	MaxConcrete int // max values when concretising a symbolic integer
 	PruneFrom   int // loop-exit branches are pruned by the solver from this iteration on
+	Cut         int // >0: a symbolic loop is assumed to exit after this many iterations (stated bound)
 }
 
 type jent struct {
@@ -33,6 +34,9 @@ type funcInfo struct {
 	scc      map[*ssa.BasicBlock]int // some loop the block is in (0 if none)
 	prune    map[*ssa.BasicBlock]bool
 	backedge map[[2]int]bool
+	exitSucc map[*ssa.BasicBlock]int // for a branch that leaves a loop on one side: that side
+	exitHeader map[*ssa.BasicBlock]*ssa.BasicBlock
+	canReturn  map[*ssa.BasicBlock]bool
 }
 
 type Frame struct {
